@@ -26,8 +26,8 @@ LEVEL_TEXT = ('Theorems (Props/C14.v): for EVERY well-formed UAM-IV file and EVE
               'ONE3D FAMILY (one3d / humidity / vertical_diffusivity; Model/One3d.v, Proofs/One3dProofs.v; Memmap reader model with the translated record_items and time_steps expressions, reshapes / first-stamp-change / memmap size rules hand-modelled): C14_one3d_accepts_iff gives the EXACT set of accepted cuts (k >= 2 whole steps, presenting exactly the first k '
               'steps; one whole step, record boundaries inside a step and ragged cuts all raise), C14_one3d_every_prefix, C14_one3d_reader_local, '
               'C14_one3d_single_step_never_opens; a subset of cuts is evaluated in Coq (constructor OD) next to the full Python sweep. '
-              'TEMPERATURE and HEIGHT/PRESSURE (Model/TempHp.v, Proofs/TempHpProofs.v; layered record files over the One3d codec; both Memmap readers hand-modelled incl. the for-loop fall-through, the lazy reshapes and the marker check): C14_temperature_two_record_prefix_refuted (for EVERY readable file the prefix holding exactly two records is '
-              'accepted with fabricated content = finding region 14), C14_temperature_accepts_iff (exact), C14_temperature_every_prefix_partial (every other cut), '
+              'TEMPERATURE and HEIGHT/PRESSURE (Model/TempHp.v, Proofs/TempHpProofs.v; layered record files over the One3d codec; both Memmap readers hand-modelled incl. the for-loop fall-through, the lazy reshapes and the marker check): C14_temperature_every_prefix and C14_temperature_accepts_iff at full strength for the reader as repaired by 9020b2c '
+              '(before it the two-record prefix of every file was accepted with fabricated content: former region 14, now a corpus case), '
               'C14_heightpres_every_prefix and C14_heightpres_accepts_iff at full strength, both reader_local; cuts incl. the two-record prefix evaluated in Coq (TD / HD).')
 LEVEL_NOTE = 'Trusted: Coq kernel+vm_compute, py2coq, harness. Met formats other than lateral_boundary: every-prefix sweep judged by the Python oracle only.'
 TECHNIQUE = 'Coq proof (prefix theorem for the reader model) + exhaustive byte-prefix sweep per generated file'
@@ -171,7 +171,7 @@ def gen(rng, n, tier):  # noqa: F811
         out.append(dict(kind='met-sweep-' + c['fmt'], content=c, write=False, sweep=True))
         if c['fmt'] in M.O3_FORMATS + M.TH_FORMATS:
             # layered met formats: a subset of cuts evaluated in Coq (Model/One3d.v, Model/TempHp.v) next to the full sweep;
-            # always every whole-step boundary and, for temperature, the two-record prefix (known finding region 14)
+            # always every whole-step boundary and, for temperature, the two-record prefix (accepted before 9020b2c)
             ri = c['nx'] * c['ny'] + 4
             m = M.recs_per_step(c)
             nrec = m * len(c['steps'])
@@ -251,11 +251,6 @@ def py_check(case, obs):  # noqa: F811
         # known: the reader never returns on some prefixes (C14-wind-prefix-hangs); a prefix that OPENS with
         # wrong content is not part of that finding
         region = 15 if (sw['timeouts'] and not sw['bad']) else 0
-    elif sw['bad'] and c['fmt'] == 'temperature':
-        # known: exactly the prefix holding the first two records (surface + one layer record) is taken for two
-        # one-record "steps" (C14-temperature-prefix-fabricated); any other accepted bad prefix is new
-        two_records = 2 * (c['nx'] * c['ny'] + 4) * 4
-        region = 14 if all(b[0] == two_records for b in sw['bad']) else 0
     return dict(s_ok=not why, region=region, why='; '.join(why), timeouts=sw['timeouts'])
 
 
